@@ -919,6 +919,9 @@ def _f1():
             yield ('F1', 'direct', 'write', 'F64E', 'F64E', '64#3')
             yield ('F1', 'direct', 'write', 'F64P', 'F32N', '32')
             yield ('F1', 'alias', 'noctx', 'F32Z', 'F64E', '32')
+            # second call under a wider context: the callee specialised there stores binary64 into the
+            # binary32 list, so a backend must refuse (or convert) at the call site under every unbox mode
+            yield ('F1', 'twice', 'noctx', 'F32Z', 'F64E', '32')
             for cn, gn in (('ctor-row', 'write'), ('ctor-row', 'alias-write'), ('ctor-nested', 'nested'),
                            ('comp-row', 'write'), ('comp-row', 'loop')):
                 yield ('F1', cn, gn, 'F64E', 'F64E', '64')
